@@ -90,12 +90,12 @@ def build_input_of(sdoc):
   return ad, cat
 
 
-def observe_styles(doc, t, D, focus=()):
+def observe_styles(doc, t, D, focus=(), t0=0):
   """[{R, k, st: [{p, v}]}] for every region and every element with an id e<k> of ISD.from_model(doc, t);
   with a non-empty focus only those properties are recorded (only those are judged)."""
   import ttconv.model as m
   from ttconv.isd import ISD
-  isd = ISD.from_model(doc, Fraction(t, D))
+  isd = ISD.from_model(doc, t0 + Fraction(t, D))
   out = []
   for region in isd.iter_regions():
     rid = region.get_id()
@@ -134,7 +134,7 @@ def _job(job):
     D = ad.get("D", 2)
     doc, _e, _r = build_doc(ad, D, cat)
     times = job["times"]
-    obs = [observe_styles(doc, t, D, job.get("focus") or ()) for t in times]
+    obs = [observe_styles(doc, t, D, job.get("focus") or (), ad.get("t0", 0)) for t in times]
     return {"id": rid, "doc": {k: sdoc[k] for k in SDOC_FIELDS}, "times": times, "obs": obs, "focus": job.get("focus", [])}
   except Exception as ex:  # pylint: disable=broad-except
     import traceback
